@@ -549,49 +549,64 @@ Record ghost := {
   hresp : option (Z * resp);       (* handleConn's [resp] *)
   wslot : option (Z * resp);       (* writeloop's [req.msg] *)
   writes : list (Z * resp);        (* responses written to the socket, oldest first *)
+  handed : nat;                    (* history: number of messages received from c.rx by recv *)
+  enq : nat;                       (* history: number of responses received from tx by writeloop *)
   events : list label              (* hook / handler / wg events, newest first *)
 }.
 
 Definition ginit : ghost :=
-  {| nextid := 0; reads := []; rslot := None; hslot := None; hresp := None; wslot := None; writes := []; events := [] |}.
+  {| nextid := 0; reads := []; rslot := None; hslot := None; hresp := None; wslot := None; writes := [];
+     handed := O; enq := O; events := [] |}.
 
 Definition opt_list {A} (o : option A) : list A := match o with Some a => [a] | None => [] end.
+
+(** the response entry the code produces for a message entry *)
+Definition resp_entry (x : Z * msg) : Z * resp := (fst x, resp_of (snd x)).
 
 (** [m]: the message that arrives, for the LRecv labels *)
 Definition gupd (l : label) (m : msg) (g : ghost) : ghost :=
   match l with
   | LRecvReq | LRecvEnc | LRecvPlain =>
     {| nextid := nextid g + 1; reads := reads g ++ [(nextid g, m)]; rslot := Some (nextid g, m);
-       hslot := hslot g; hresp := hresp g; wslot := wslot g; writes := writes g; events := events g |}
+       hslot := hslot g; hresp := hresp g; wslot := wslot g; writes := writes g;
+       handed := handed g; enq := enq g; events := events g |}
   | LRecvPlainFatal =>
     {| nextid := nextid g + 1; reads := reads g ++ [(nextid g, m)]; rslot := None;
-       hslot := hslot g; hresp := hresp g; wslot := wslot g; writes := writes g; events := events g |}
+       hslot := hslot g; hresp := hresp g; wslot := wslot g; writes := writes g;
+       handed := handed g; enq := enq g; events := events g |}
   | LRDrop =>
     {| nextid := nextid g; reads := reads g; rslot := None;
-       hslot := hslot g; hresp := hresp g; wslot := wslot g; writes := writes g; events := events g |}
+       hslot := hslot g; hresp := hresp g; wslot := wslot g; writes := writes g;
+       handed := handed g; enq := enq g; events := events g |}
   | LHandoff =>
     {| nextid := nextid g; reads := reads g; rslot := None;
-       hslot := rslot g; hresp := hresp g; wslot := wslot g; writes := writes g; events := events g |}
+       hslot := rslot g; hresp := hresp g; wslot := wslot g; writes := writes g;
+       handed := S (handed g); enq := enq g; events := events g |}
   | LHEnd | LMkErrResp =>
     {| nextid := nextid g; reads := reads g; rslot := rslot g;
-       hslot := None; hresp := option_map (fun x => (fst x, resp_of (snd x))) (hslot g);
-       wslot := wslot g; writes := writes g;
+       hslot := None; hresp := option_map resp_entry (hslot g);
+       wslot := wslot g; writes := writes g; handed := handed g; enq := enq g;
        events := match l with LHEnd => l :: events g | _ => events g end |}
   | LHDrop =>
     {| nextid := nextid g; reads := reads g; rslot := rslot g;
-       hslot := None; hresp := None; wslot := wslot g; writes := writes g; events := events g |}
+       hslot := None; hresp := None; wslot := wslot g; writes := writes g;
+       handed := handed g; enq := enq g; events := events g |}
   | LEnqueue =>
     {| nextid := nextid g; reads := reads g; rslot := rslot g;
-       hslot := hslot g; hresp := None; wslot := hresp g; writes := writes g; events := events g |}
+       hslot := hslot g; hresp := None; wslot := hresp g; writes := writes g;
+       handed := handed g; enq := S (enq g); events := events g |}
   | LWriteOk =>
     {| nextid := nextid g; reads := reads g; rslot := rslot g;
-       hslot := hslot g; hresp := hresp g; wslot := None; writes := writes g ++ opt_list (wslot g); events := events g |}
+       hslot := hslot g; hresp := hresp g; wslot := None; writes := writes g ++ opt_list (wslot g);
+       handed := handed g; enq := enq g; events := events g |}
   | LWriteFail =>
     {| nextid := nextid g; reads := reads g; rslot := rslot g;
-       hslot := hslot g; hresp := hresp g; wslot := None; writes := writes g; events := events g |}
+       hslot := hslot g; hresp := hresp g; wslot := None; writes := writes g;
+       handed := handed g; enq := enq g; events := events g |}
   | LHStart | LHookOk | LHookFail | LTlsOk | LTlsFail | LTermHook | LWgDone | LShutdown | LRootCancel =>
     {| nextid := nextid g; reads := reads g; rslot := rslot g;
-       hslot := hslot g; hresp := hresp g; wslot := wslot g; writes := writes g; events := l :: events g |}
+       hslot := hslot g; hresp := hresp g; wslot := wslot g; writes := writes g;
+       handed := handed g; enq := enq g; events := l :: events g |}
   | _ => g
   end.
 
@@ -616,6 +631,84 @@ Definition gstep (C : cfg) (A : list msg) (x : gstate) : list gstate :=
     if is_recv l then map (fun m => (c', gupd l m (snd x))) (filter (msg_fits l) A)
     else [(c', gupd l MResp (snd x))]) (cstep_lbl C (fst x)).
 Definition ginit_state (tls : bool) : gstate := (cinit tls, ginit).
+
+(** * Abstraction of control states for the ghost layer
+
+    Which local variables hold a message/response is a function of the program counters.
+    [trans_ok] says, per label, how this shape may change; it is checked on every transition
+    of every reachable control state (reflective certificate in the proofs file), and the
+    ghost invariant is then proved per label, without looking at control states again. *)
+Inductive hstage := HNone | HMsg | HResp.
+Record absst := {
+  a_rfull : option bool;   (* readloop holds a message; Some e: with resp.err != nil iff e *)
+  a_hst : hstage;          (* handleConn holds nothing / a request or error / a response *)
+  a_wfull : bool;          (* writeloop holds a response *)
+  a_rdead : bool;          (* readloop will not read again *)
+  a_hexit : bool;          (* handleConn has left (or is leaving) its loop *)
+  a_wdead : bool;          (* writeloop will not receive from tx again *)
+  a_herr : bool            (* handleConn took an encoding error from c.rx *)
+}.
+
+Definition abs (c : cstate) : absst := {|
+  a_rfull := match rp c with R_Send e => Some e | _ => None end;
+  a_hst := match hp c with
+           | H_Invoke | H_Handling | H_ErrResp => HMsg
+           | H_CtxChk | H_SendChk1 | H_SendChk2 | H_SendLoad | H_SendMk | H_SendSel => HResp
+           | _ => HNone
+           end;
+  a_wfull := match wp c with W_Write => true | _ => false end;
+  a_rdead := match rp c with R_TermSwap | R_Term _ | R_Exit | R_Done => true | _ => false end;
+  a_hexit := match hp c with
+             | H_SendCancel | H_TermSwap _ | H_Term _ _ | H_SendRet true | H_Break | H_DHook | H_DClose | H_WgDone | H_Done => true
+             | _ => false
+             end;
+  a_wdead := match wp c with W_SendErr | W_CloseErr | W_TermSwap | W_Term _ | W_Done => true | _ => false end;
+  a_herr := herr c |}.
+
+Definition obool_eqb (a b : option bool) : bool :=
+  match a, b with Some x, Some y => Bool.eqb x y | None, None => true | _, _ => false end.
+Definition hstage_eqb (a b : hstage) : bool :=
+  match a, b with HNone, HNone | HMsg, HMsg | HResp, HResp => true | _, _ => false end.
+Definition is_none {A} (o : option A) : bool := match o with None => true | _ => false end.
+
+(** flags never go back *)
+Definition mono (a a' : absst) : bool :=
+  implb (a_rdead a) (a_rdead a') && implb (a_hexit a) (a_hexit a') && implb (a_wdead a) (a_wdead a').
+Definition same_r (a a' : absst) := obool_eqb (a_rfull a) (a_rfull a').
+Definition same_h (a a' : absst) := hstage_eqb (a_hst a) (a_hst a') && Bool.eqb (a_herr a) (a_herr a').
+Definition same_w (a a' : absst) := Bool.eqb (a_wfull a) (a_wfull a').
+
+Definition trans_ok (l : label) (a a' : absst) : bool :=
+  mono a a' &&
+  match l with
+  | LRecvReq =>
+    is_none (a_rfull a) && negb (a_rdead a) && obool_eqb (a_rfull a') (Some false) && negb (a_rdead a') && same_h a a' && same_w a a'
+  | LRecvEnc | LRecvPlain =>
+    is_none (a_rfull a) && negb (a_rdead a) && obool_eqb (a_rfull a') (Some true) && negb (a_rdead a') && same_h a a' && same_w a a'
+  | LRecvPlainFatal | LRecvFail =>
+    is_none (a_rfull a) && negb (a_rdead a) && is_none (a_rfull a') && a_rdead a' && same_h a a' && same_w a a'
+  | LRecvResp =>
+    is_none (a_rfull a) && same_r a a' && same_h a a' && same_w a a'
+  | LRDrop =>
+    is_none (a_rfull a') && a_rdead a' && same_h a a' && same_w a a'
+  | LHandoff =>
+    negb (a_rdead a) && negb (a_hexit a) && negb (a_herr a) && hstage_eqb (a_hst a) HNone
+    && match a_rfull a with Some e => Bool.eqb (a_herr a') e | None => false end
+    && is_none (a_rfull a') && negb (a_rdead a') && hstage_eqb (a_hst a') HMsg && negb (a_hexit a') && same_w a a'
+  | LHEnd | LMkErrResp =>
+    hstage_eqb (a_hst a) HMsg && hstage_eqb (a_hst a') HResp && Bool.eqb (a_herr a) (a_herr a') && same_r a a' && same_w a a'
+  | LHDrop =>
+    hstage_eqb (a_hst a') HNone && a_hexit a' && Bool.eqb (a_herr a) (a_herr a') && same_r a a' && same_w a a'
+  | LEnqueue =>
+    hstage_eqb (a_hst a) HResp && negb (a_hexit a) && negb (a_wfull a) && negb (a_wdead a)
+    && hstage_eqb (a_hst a') HNone && negb (a_hexit a') && a_wfull a' && negb (a_wdead a')
+    && Bool.eqb (a_herr a) (a_herr a') && same_r a a'
+  | LWriteOk =>
+    a_wfull a && negb (a_wdead a) && negb (a_wfull a') && negb (a_wdead a') && same_r a a' && same_h a a'
+  | LWriteFail =>
+    a_wfull a && negb (a_wfull a') && a_wdead a' && same_r a a' && same_h a a'
+  | _ => same_r a a' && same_h a a' && same_w a a'
+  end.
 
 (** * Scenario semantics (used by the correspondence check only)
 
